@@ -127,10 +127,10 @@ private theorem mod3 (a b c q : Nat) : ((a % q + b) % q + c % q) % q = (a + b + 
   exact (Nat.add_mod (a + b) c q).symm
 
 /-- `CombineGroupPublicKey` (exponents): own `a_0` + the zeroth point of every member whose points
-    are held as valid + every reconstructed individual key. -/
+    are held as valid + every reconstructed individual key of a member whose points are not held. -/
 theorem phase12_key_is_sum (st : St) (hq : 0 < st.q) :
     (phase12 st).gk = some ((st.pts.headD 0 + (st.validPts.map (·.2.headD 0)).sum
-      + (st.reconPriv.map (·.2)).sum) % st.q) := by
+      + ((st.reconPriv.filter (fun p => !(st.fixKey && hasKey p.1 st.validPts))).map (·.2)).sum) % st.q) := by
   have gen : ∀ {α} (g : α → Nat) (l : List α) (a : Nat),
       l.foldl (fun acc p => (acc + g p) % st.q) a % st.q = (a + (l.map g).sum) % st.q := by
     intro α g l
@@ -155,8 +155,8 @@ theorem phase12_key_is_sum (st : St) (hq : 0 < st.q) :
   have h1lt : k1 < st.q := hlt (fun p : Nat × List Nat => p.2.headD 0) _ _ (Nat.mod_lt _ hq)
   have h1 : k1 % st.q = (st.pts.headD 0 % st.q + (st.validPts.map (·.2.headD 0)).sum) % st.q :=
     gen (fun p : Nat × List Nat => p.2.headD 0) _ _
-  have h2lt := hlt (fun p : Nat × Nat => p.2) st.reconPriv k1 h1lt
-  have h2 := gen (fun p : Nat × Nat => p.2) st.reconPriv k1
+  have h2lt := hlt (fun p : Nat × Nat => p.2) (st.reconPriv.filter (fun p => !(st.fixKey && hasKey p.1 st.validPts))) k1 h1lt
+  have h2 := gen (fun p : Nat × Nat => p.2) (st.reconPriv.filter (fun p => !(st.fixKey && hasKey p.1 st.validPts))) k1
   rw [← Nat.mod_eq_of_lt h2lt, h2, Nat.add_mod, ← Nat.mod_eq_of_lt h1lt, Nat.mod_mod, h1]
   exact mod3 _ _ _ _
 
@@ -288,6 +288,20 @@ set_option maxRecDepth 100000 in
 /-- unchanged tree on the single-corrupt-member F1 run: the two honest members' group keys are not
     the public key of the secret their shares interpolate to (C02 inherits F1). -/
 theorem f1_shares_inconsistent_unfixed : modelHolds (f1singlecfg false) = false := by decide +kernel
+
+/-- member 4 goes silent in phase 10 (its valid points are held by everyone), corrupt 5 reveals
+    its key for 4 -/
+def fKey (fix : Bool) : Cfg :=
+  { n := 5, t := 2, seed := 1, ord := 2, q := Gen.C02.order, fixed := true, fixKey := fix,
+    adv := [(4, 10, [.silent]), (5, 10, [.mods [⟨"rev", [4]⟩]])] }
+
+set_option maxRecDepth 100000 in
+/-- unchanged tree: the share recovered with the revealed key was interpolated into an extra
+    "individual key" — the group public key is not the public key of the shared secret -/
+theorem key_pollution_unfixed : modelHolds (fKey false) = false := by decide +kernel
+
+set_option maxRecDepth 100000 in
+theorem key_pollution_fixed_consistent : modelHolds (fKey true) = true := by decide +kernel
 
 set_option maxRecDepth 100000 in
 /-- a run in which a QUAL member goes silent in phase 7 and its key is reconstructed in phase 11 -/
